@@ -25,7 +25,9 @@ REGISTRY = {
     'cont': {'*': [dict(kind='egg', file='replays/cont/nested_containers.egg'), dict(kind='egg', file='replays/cont/nested_containers.egg', args=('--naive',)),
                    dict(kind='egg', file='replays/cont/incremental_container_rebuild.egg'),
                    dict(kind='egg', file='replays/cont/map_keys_of_container_sort.egg'),
-                   dict(kind='egg', file='replays/cont/merged_container_parent_refresh.egg')]},
+                   dict(kind='egg', file='replays/cont/merged_container_parent_refresh.egg'),
+                   dict(kind='egg', file='replays/cont/merged_container_parent_refresh.egg', args=('-j', '4')),
+                   dict(kind='egg', file='replays/cont/nested_containers.egg', args=('-j', '4'))]},
     'sched': {'*': [dict(kind='egg', file='replays/sched/schedules.egg')]},
     'merge': {'*': [dict(kind='egg', file='replays/merge/merge_and_subsume.egg'),
                     dict(kind='egg', file='replays/merge/parallel_in_batch_merge.egg', args=('-j', '4'), env={'EGGLOG_PARALLEL_TABLE_OP_CUTOFF': '0'}),
